@@ -36,6 +36,19 @@ def install(ctx, repo, probes):
 
     def pre(args, kwargs):
         p = args[1]
+        if not p._truncated and p._hour_of_day == 24 and \
+                type(p._hour_of_day) is int and \
+                R.tp_valid(MODE, p, allow_24=True) and \
+                R.tp_form(p) == "hms" and R.tp_is_integral(p):
+            # 24:00 is no POSIX civil time: the day's end may be rendered as
+            # 24:00:00 of that day or as 00:00:00 of the next - but as one of
+            # the two throughout one text, with %s the instant's Unix time
+            rd = R.tp_rd(MODE, p)
+            if 0 <= R.rd_to_ymd(MODE, rd)[0] and \
+                    R.rd_to_ymd(MODE, rd + 1)[0] <= 9999:
+                return ("24", rd, R.tp_offset_minutes(p),
+                        R.tp_instant(MODE, p), R.tp_key(p))
+            return None
         if p._truncated or not R.tp_valid(MODE, p) or p._hour_of_day == 24:
             return None
         rd = R.tp_rd(MODE, p)
@@ -49,9 +62,26 @@ def install(ctx, repo, probes):
         if snap is None:
             return
         fmt = args[2]
-        rd, sod, off, inst, key = snap
         letters = [fmt[i + 1] for i in range(len(fmt) - 1)
                    if fmt[i] == "%"]
+        if snap[0] == "24":
+            if any(c not in SUPPORTED for c in letters) or \
+                    not isinstance(fmt, str):
+                return
+            _, rd, off, inst, key = snap
+            ctx.ev("strftime.post-24")
+            secs = int(inst - R.unix_epoch_rd(MODE) * 86400)
+            wants = (R.posix_strftime(MODE, fmt, rd, 86400, off, secs),
+                     R.posix_strftime(MODE, fmt, rd + 1, 0, off, secs))
+            if exc is not None or text not in wants:
+                ctx.violation("strftime.wrong-24", "strftime(%r, %r) = %r / "
+                              "raised %r; the end of that day is %r or %r" % (
+                                  key, fmt, text, exc, wants[0], wants[1]),
+                              p=key, fmt=fmt)
+            else:
+                ctx.cls("strftime/end-of-day-24")
+            return
+        rd, sod, off, inst, key = snap
         if any(c not in SUPPORTED for c in letters):
             ctx.ev("unsupported.post")
             bad = [c for c in letters if c not in SUPPORTED]
@@ -163,7 +193,8 @@ def install(ctx, repo, probes):
         ctx.target("strftime/" + rep)
     for c in SUPPORTED:
         ctx.target("directive/%" + c)
-    ctx.target("strftime/via-operator", "unsupported-refused-strptime")
+    ctx.target("strftime/via-operator", "unsupported-refused-strptime",
+               "strftime/end-of-day-24")
     ctx.target("parser/assumed+default-unknown", "empty-format",
                "week-year-differs-from-calendar-year", "%s-before-1970",
                "strptime/full", "strptime/epoch", "strptime/partial",
@@ -352,8 +383,47 @@ def make_point(rng, whole=True):
     return kw
 
 
+FORMATS_24 = ("%s %F %X", "%F %X %s", "%d %s %j %H", "%H:%M:%S %s %Y-%m-%d",
+              "%s", "%F %X", "%j %s %j", "%Y%m%dT%H%M%S%z %s", "%s|%d|%s|%d")
+
+
 def workload(ctx, repo):
     rng = ctx.rng
+    # %s beside other directives, before and after them: the Unix time
+    # decides the instant wherever it stands in the format
+    for j in range(60 if ctx.tier == "quick" else 240):
+        if not ctx.mine(j):
+            continue
+        for fmt in ("%s %z", "%z %s", "%s %H:%M", "%H:%M %s", "%s %F",
+                    "%F %s", "%X %s %Y", "%s %j", "%M %s %S", "%s %F %X %z",
+                    "%d.%m.%Y %s"):
+            kw = make_point(rng)
+            case = {"op": "epoch", "p": kw, "fmt": fmt,
+                    "assumed": list(rng.choice(((0, 0), (5, 30), (-8, 0))))}
+            ctx.case = case
+            ctx.ev("cases.epoch-mixed")
+            run_case(ctx, repo, case)
+    # the end of a day written 24:00, in every representation, at month,
+    # year and week-year ends: one rendering, whichever directive comes first
+    if ctx.worker == 0:
+        for (y, m, d) in ((2001, 12, 31), (2004, 2, 28), (2004, 2, 29),
+                          (2019, 12, 29), (2021, 1, 3), (1969, 12, 31),
+                          (2000, 6, 15)):
+            rd = R.ymd_to_rd(MODE, y, m, d)
+            for rep in gen.REPS:
+                for off in ((0, 0), (5, 30), (-3, 0)):
+                    for fmt in FORMATS_24:
+                        kw = gen.date_kwargs(MODE, rep, rd)
+                        kw.pop("num_expanded_year_digits", None)
+                        kw.update({"hour_of_day": 24, "minute_of_hour": 0,
+                                   "second_of_minute": 0})
+                        kw.update(gen.zone_kwargs(off))
+                        case = {"op": "strftime", "p": kw, "fmt": fmt}
+                        if len(fmt) % 2:
+                            case["via"] = "dumper"
+                        ctx.case = case
+                        ctx.ev("cases.end-of-day-24")
+                        run_case(ctx, repo, case)
     # Unix times that are whole 400-year cycles (and whole centuries) from
     # the epoch, printed and read back with %s
     if ctx.worker == 0:
